@@ -89,7 +89,7 @@ func makeAdditionalAnyJSONObjects(r schema.RuleASTNode) AdditionalPropertiesAnyJ
 			Format: internal.StringRef(internal.StringUuid),
 		}
 	default:
-		if r.Value[0] == '@' {
+		if len(r.Value) != 0 && r.Value[0] == '@' {
 			s = AdditionalPropertiesAnyJsonItem{
 				Ref: internal.StringRef(fmt.Sprintf(`#/components/schemas/%s`, strings.TrimLeft(r.Value, "@"))),
 			}
